@@ -170,7 +170,7 @@ class C01(Machine):
     minimise_by = "victim"
     rule = ("two layers: (a) pair sweep -- for a fixed seeded input per "
             "class, every (mutator, query pattern): build; [earlier mutators]; q; "
-            "fillers; m; q (small classes: every chain of earlier mutators, "
+            "fillers; m; fillers; q (small classes: every chain of earlier mutators, "
             "the same mutator repeating its arguments half of the time); "
             "(b) random histories of 6..30 ops over 1..3 live objects "
             "(build / query / mutate / discard+rebuild).  Query patterns are "
@@ -197,7 +197,8 @@ class C01(Machine):
         "the un-memoised primary state where the constructor cannot express "
         "the state)",
         "a divergence reproduced by replaying the object's earlier *queries* "
-        "on a fresh twin is a query-order effect (C06), not judged here",
+        "on a fresh twin is a query-order effect: reported under the "
+        "signature kind 'query-order' (C06 names the perpetrator)",
         "bookkeeping accessors, randomised generators, I/O and plotting are "
         "not queries", "refused mutator calls are not generated"]
 
@@ -322,6 +323,11 @@ class C01(Machine):
             ops.append({"op": "mutate", "obj": 0, "name": mname,
                         "as": used[mname] if mname in used
                         and a.random() < 0.5 else a.randrange(10 ** 9)})
+            # other queries on the new state before the one under test
+            for _ in range(a.randrange(0, 3)):
+                fn, fk = qs[a.randrange(len(qs))]
+                ops.append({"op": "query", "obj": 0, "name": fn,
+                            "kw": with_pos(fk, a)})
             ops.append({"op": "query", "obj": 0, "name": qn, "kw": kw})
             return {"property": self.pid, "seed": seed, "run": idx,
                     "config": {"lru": lru, "layer": "pair"}, "ops": ops}
@@ -639,9 +645,25 @@ class C01(Machine):
             if replay:
                 hv, _ = fresh(replay)
                 if C.same(val, hv, tol)[0]:
+                    # an earlier *query* (not a state change) changed what
+                    # this one returns: still a value that a newly
+                    # constructed object does not report -- a violation of
+                    # the statement's first sentence, reported under its own
+                    # signature (C06 reports the perpetrator)
                     R.probe("query_order_effect")
                     R.covered("query_order_effects",
                               f"{spec.name}|{rec['key']}")
+                    R.violate(
+                        f"{self.pid}|{spec.name}|query-order|{rec['key']}",
+                        f"step {rec['step']}: {spec.name}.{rec['key']} "
+                        f"returned {C.short(val)}; a newly constructed "
+                        f"object with the same current inputs ({how} twin) "
+                        f"returns {C.short(tv)} ({why}), and returns the "
+                        f"object's value once it has been asked the "
+                        f"object's earlier queries "
+                        f"{[q_[0] for q_ in replay][-6:]}: an earlier query "
+                        f"changed what this one returns",
+                        victim=f"{spec.name}|{rec['key']}")
                     return
         trig = "+".join(sorted(set(rec["muts"]))) or "none"
         R.violate(
